@@ -343,6 +343,8 @@ def extra_arms(prop, tier, seed, cov, violations, inconcl, notes, arms_used, env
             os.unlink(pp)
         else:
             inconcl.append('constant-evaluator arm: no points file')
+    if tier == 'thorough' or os.environ.get('VERIF_REACH') == '1':
+        reach_arm(prop, tier, seed, cov, inconcl, notes, arms_used)
 
 
 def replay(prop, rec):
@@ -362,3 +364,119 @@ def replay(prop, rec):
         return 0
     print('replay of constant-evaluator witnesses: re-run the check; the points are regenerated from the seed')
     return 2
+
+
+# ------------------------------------------------------------------------------------------------ reach arm (gcov)
+ANCHORS = {
+    'C01': ['fixed_t fixed_additioni(', 'fixed_t fixed_substracti('],
+    'C02': ['bool multiply_overflows(', 'fixed_t fixed_multiplyi (', 'fixed_t fixed_multiply_scalar (fixed_t lh'],
+    'C03': ['fixed_t fixed_divisionf(', 'fixed_t fixed_division_by_scalar('],
+    'C04': ['fixed_t integral_to_fixed(', 'integral_type fixed_to_integral ('],
+    'C05': ['fixed_t floating_point_to_fixed (', 'floating_point_type fixed_to_floating_point('],
+    'C06': ['fixed_t abs(', 'bool isnan('],
+    'C09': ['fixed_t sin_range(', 'fixed_t sin(', 'fixed_t cos('],
+    'C10': ['fixed_internal tan_(', 'fixed_internal tan_range(', 'fixed_t tan('],
+    'C11': ['fixed_internal atan(', 'fixed_internal atan_sum(', 'fixed_t atan(', 'fixed_t atan2('],
+    'C12': ['fixed_internal asin(', 'fixed_t asin(', 'fixed_t acos('],
+    'C13': ['fixed_t sqrt_abacus(', 'fixed_t sqrt_std_math(', 'fixed_internal highest_pwr4_clz('],
+    'C14': ['fixed_t hypot(fixed_t lh'],
+    'C15': ['fixed_t ceil(', 'fixed_t floor('],
+    'C16': ['fixed_t promote_to_fixed(', 'double promote_to_double(', 'auto promote_type_to_signed('],
+    'C18': ['fixed_t operator >> (', 'fixed_t operator << ('],
+    'C19': ['fixed_t sin_angle_aprox(', 'fixed_t cos_angle_aprox(', 'fixed_t sqrt_aprox(fixed_t value) noexcept', 'fixed_t atan_index_aprox( fixed_t value ) noexcept'],
+    'C20': ['fixed_t angle_to_radians(', 'fixed_t sin_angle(', 'fixed_t cos_angle(', 'fixed_t tan_angle('],
+}
+ANCHORS['C17'] = ANCHORS['C01'] + ANCHORS['C02'] + ANCHORS['C03']
+ANCHORS['C07'] = sorted(set(sum((v for v in ANCHORS.values()), []))) + ['fixed_t hypot_aprox (fixed_t lh, fixed_t rh ) noexcept']
+ANCHORS['C08'] = ANCHORS['C07']
+
+
+def locate_functions(lines, header):
+    """every (first_line, last_line), 1-based, of a definition whose header contains `header`, by brace matching"""
+    out = []
+    for i, l in enumerate(lines):
+        if header in ' '.join(l.split()) or header in l:
+            # definition, not a declaration: a '{' must come before a ';'
+            j = i
+            depth = 0
+            started = False
+            while j < len(lines) and j < i + 400:
+                txt = lines[j]
+                if not started and ';' in txt and '{' not in txt:
+                    break
+                for ch in txt:
+                    if ch == '{':
+                        depth += 1
+                        started = True
+                    elif ch == '}':
+                        depth -= 1
+                if started and depth == 0:
+                    out.append((i + 1, j + 1))
+                    break
+                j += 1
+    return out
+
+
+def reach_arm(prop, tier, seed, cov, inconcl, notes, arms_used):
+    arms_used.append('reach-gcov')
+    d = os.path.join(V.CACHE, 'cov', f'{V.tree_hash()}-{os.getpid()}')
+    shutil.rmtree(d, ignore_errors=True)
+    os.makedirs(d)
+    try:
+        flags = ['-std=c++17', '-O0', '--coverage', '-w', '-fPIC', f'-D{V.HOOK_DEFINE}=1', f'-I{V.LIB_INC}', '-DVERIF_CFG="gcc-O0-coverage"']
+        abacus = prop in V.NEEDS_ABACUS
+        if abacus:
+            flags.append('-DFIXEDMATH_ENABLE_SQRT_ABACUS_ALGO')
+        objs = []
+        for src in (os.path.join(V.HARNESS, 'wrappers.cc'), V.LIB_SRC):
+            o = os.path.join(d, os.path.basename(src) + '.o')
+            r = V.run(['g++'] + flags + ['-c', src, '-o', o])
+            if r.returncode != 0:
+                raise V.Inconclusive('coverage build failed: ' + r.stderr[-1500:])
+            objs.append(o)
+        so = os.path.join(d, 'cov.so')
+        r = V.run(['g++', '--coverage', '-shared', '-Wl,-Bsymbolic'] + objs + ['-o', so])
+        if r.returncode != 0:
+            raise V.Inconclusive('coverage link failed: ' + r.stderr[-1500:])
+        exe = V.build_monitor()
+        out = os.path.join(d, 'mon.json')
+        r = V.run([exe, prop, 'quick', str(seed), out, '--threads', str(V.NCPU), '--scale', '0.05', so], timeout=1800)
+        if r.returncode != 0:
+            raise V.Inconclusive('coverage monitor run failed: ' + r.stderr[-800:])
+        gc = V.run(['gcov', '--json-format', '--stdout'] + [o[:-2] + '.gcda' for o in objs], cwd=d)
+        per_file = {}
+        for doc in re.findall(r'^\{.*\}$', gc.stdout, re.M):
+            try:
+                j = json.loads(doc)
+            except Exception:
+                continue
+            for f in j.get('files', []):
+                if '/fixed_lib/' not in os.path.abspath(os.path.join(d, f['file'])):
+                    continue
+                m = per_file.setdefault(os.path.abspath(os.path.join(d, f['file'])), {})
+                for ln in f['lines']:
+                    m[ln['line_number']] = m.get(ln['line_number'], 0) + ln['count']
+        reach = {}
+        for header in ANCHORS.get(prop, []):
+            found = False
+            for path, counts in per_file.items():
+                src_lines = open(path, errors='replace').read().splitlines()
+                # a header may also match a disabled (#if 0) twin: take the first definition that has executable lines
+                locs = [l for l in locate_functions(src_lines, header) if any(l[0] <= n <= l[1] for n in counts)]
+                if not locs:
+                    continue
+                loc = locs[0]
+                found = True
+                exe_lines = [n for n in counts if loc[0] <= n <= loc[1]]
+                hit = [n for n in exe_lines if counts[n] > 0]
+                reach[header.strip()] = {'file': os.path.relpath(path, V.REPO), 'lines': f'{loc[0]}-{loc[1]}', 'executable_lines': len(exe_lines), 'lines_hit': len(hit),
+                                         'max_count': max((counts[n] for n in exe_lines), default=0), 'never_executed_lines': sorted(set(exe_lines) - set(hit))[:20]}
+                if not hit:
+                    inconcl.append(f'reach: anchored function "{header.strip()}" was never executed by the {prop} workload')
+                break
+            if not found:
+                notes.append(f'reach: anchor "{header.strip()}" not located in the current sources (refactored?)')
+        cov['reach'] = {'configuration': 'g++ -O0 --coverage' + (' abacus' if abacus else ''), 'workload': 'the property workload at VERIF_SCALE 0.05, quick bounds',
+                        'files_measured': sorted(os.path.relpath(p, V.REPO) for p in per_file), 'anchored_functions': reach}
+    finally:
+        shutil.rmtree(d, ignore_errors=True)
